@@ -50,10 +50,9 @@ LEVEL_TEXT = ('Coq theorems over an executable Gallina model of the hostmask glo
 LEVEL_NOTE = ('Trusted: Coq kernel, extraction + driver, harness; Python re for the emitted atoms (tested; since the repair of F27 the '
               'regexp folds ASCII letters only, and the matcher inputs include letters whose Unicode case mapping crosses ASCII); '
               'both caches are modelled with CacheDict\'s eviction rule and size (table T04; the boundary "full between the two writes of '
-              'an entry" is in the corpus for the hostmask cache, F28), clock and timeout are explicit inputs.  NOT modelled / not '
-              'verified: the memo layers of ircutils.hostmaskPatternEqual (_patternCache, _hostmaskPatternEqualCache: the matcher is '
-              'compared through the uncached _hostmaskPatternEqual and, inside histories, through the cached one for a few dozen '
-              'patterns only); the name-cache eviction boundary needs about 500 accounts and is modelled but never generated; one network '
+              'an entry" is in the corpus for the hostmask cache, F28), clock and timeout are explicit inputs.  The memo layers of ircutils.hostmaskPatternEqual are modelled in Memo.v (C04_glob_memo: memoised = '
+              'direct), their key expressions and sizes pinned by T04, and lookup sequences with Unicode-case twins are compared '
+              'with a cold matcher; the memo model itself is not stepped against the real dictionaries.  NOT modelled / not verified: the name-cache eviction boundary needs about 500 accounts and is modelled but never generated; one network '
               '(hostmasks, logins and caches are network-agnostic in ircdb: the same hostmask on another network is the same sender); '
               'logins made without a password by other plugins (NickAuth: services account, GPG: signed token) call the same '
               'addAuth + setUser and are outside the histories; users.conf load / reload (IrcUserCreator writes hostmasks without '
@@ -723,6 +722,46 @@ def _overlapping_globs(inp):
 # so are F25 (secure_stale_login) and F26 (secure_not_undone)
 CLASSES = {'overlapping_globs': _overlapping_globs}
 
+TWINS = [('k', 'K', '\u212a'), ('s', 'S', '\u017f'), ('\xe5', '\xc5', '\u212b'), ('\xe9', '\xc9'), ('i', 'I', '\u0130', '\u0131'),
+         ('ss', '\xdf', '\u1e9e'), ('\u03c3', '\u03c2', '\u03a3')]
+
+
+def memo_failure(ircutils, seq):
+    """run the lookups of seq['sequence'] against seq['pattern'] through the PUBLIC, memoised hostmaskPatternEqual from
+    empty memo caches; every answer must be the cold matcher's (and the reference's)"""
+    ircutils._hostmaskPatternEqualCache.clear()
+    ircutils._patternCache.clear()
+    p = seq['pattern']
+    try:
+        for i, h in enumerate(seq['sequence']):
+            got = bool(ircutils.hostmaskPatternEqual(p, h))
+            cold = bool(ircutils._hostmaskPatternEqual(p, h))
+            if got != cold or got != ref_match(p, h):
+                return (i, 'hostmaskPatternEqual(%r, %r) = %r after the lookups %r, but a cold matcher says %r (IRC rules: %r)'
+                        % (p, h, got, seq['sequence'][:i], cold, ref_match(p, h)))
+    finally:
+        ircutils._hostmaskPatternEqualCache.clear()
+        ircutils._patternCache.clear()
+    return None
+
+
+def gen_memo_seq(rng):
+    fam = rng.choice(TWINS)
+    tail = rng.choice(['evin', 'am', 'x', ''])
+    rest = rng.choice(['!u@h', '!x@y', '!U@H'])
+    lead = rng.choice(fam)
+    pattern = rng.choice([lead + tail + '!*@*', lead + '*!*@*', '*' + rest[1:], lead + tail + rest, '?' + tail + '!*@*'])
+    hosts = [c + tail + rest for c in fam] + [c + tail.upper() + rest for c in fam[:2]]
+    seqn = [rng.choice(hosts) for _ in range(rng.randint(2, 5))]
+    return {'pattern': pattern, 'sequence': seqn}
+
+
+MEMO_CORPUS = [{'pattern': 'kevin!*@*', 'sequence': ['kevin!u@h', '\u212aevin!u@h']},
+               {'pattern': 'kevin!*@*', 'sequence': ['\u212aevin!u@h', 'kevin!u@h', 'Kevin!u@h']},
+               {'pattern': '\xe9!*@*', 'sequence': ['\xe9!u@h', '\xc9!u@h']},
+               {'pattern': '\xe9!*@*', 'sequence': ['\xc9!u@h', '\xe9!u@h']},
+               {'pattern': 'sam!*@*', 'sequence': ['SAM!u@h', '\u017fam!u@h', 'sam!u@h']}]
+
 GLOB_CORPUS = [('kevin!*@*', '\u212aevin!u@h'), ('sam!*@*', '\u017fam!u@h'), ('\u212a!*@*', 'k!u@h'), ('\xe9!*@*', '\xc9!u@h'),
                ('i!*@*', '\u0131!u@h'), ('\u0130!*@*', 'i!u@h'), ('K?!*@*', 'k\u212a!u@h')]
 
@@ -739,6 +778,11 @@ CORPUS = [
     {'timeout': 10, 'ops': [['new'], ['set', 1, ['u1', ['zz!zz@zz'], None, False]], ['auth', 1, 'ab!x@y'], ['lookup', 'ab!x@y'],
                             ['tick', 8], ['auth', 1, 'q!q@q'], ['lookup', 'q!q@q'], ['lookup', 'ab!x@y'], ['tick', 5], ['lookup', 'ab!x@y'],
                             ['lookup', 'q!q@q']]},
+    # a sender whose nick is a Unicode-case twin of a registered one (KELVIN SIGN for K): never recognised, in either order
+    {'timeout': 0, 'ops': [['new'], ['set', 1, ['u1', ['kevin!*@*'], None, False]], ['lookup', 'kevin!u@h'], ['lookup', '\u212aevin!u@h'],
+                           ['lookup', 'Kevin!u@h']]},
+    {'timeout': 0, 'ops': [['new'], ['set', 1, ['u1', ['kevin!*@*'], None, False]], ['lookup', '\u212aevin!u@h'], ['lookup', 'kevin!u@h'],
+                           ['lookup', 'KEVIN!u@h']]},
     # the hostmask cache drops everything when it holds CACHE_MAX keys; an entry is two keys: filled to CACHE_MAX - 1, the first
     # cached answer for another account leaves only its id -> {hostmask} half; setUser / delUser of that account must still work
     {'timeout': 0, 'ops': [['new'], ['new'], ['set', 1, ['u1', ['abc*!*@*'], None, False]], ['set', 2, ['u2', ['bob!*@*'], None, False]],
@@ -826,6 +870,14 @@ def run(ctx):
             ctx.disagree(inp, bool(mo), ir, 'hostmaskPatternEqual')
         if ir != ref_match(p, h):
             ctx.fail(inp, 'hostmaskPatternEqual(%r, %r) = %r but IRC glob/case rules say %r' % (p, h, ir, not ir))
+    # (i') the memo layers in front of the matcher (ircutils.hostmaskPatternEqual: compiled-pattern cache, result cache):
+    # the answer for a hostmask never depends on what was asked before.  Sequences of lookups against one pattern in which
+    # hostmasks that differ only by a case mapping IRC does not know (str.lower / str.upper / casefold twins) follow each other
+    for seq in MEMO_CORPUS + [gen_memo_seq(rng) for _ in range(ctx.n(300))]:
+        ctx.case('memo', seq, nontrivial=True)
+        bad = memo_failure(ircutils, seq)
+        if bad is not None:
+            ctx.fail(dict(seq, index=bad[0]), bad[1])
     # (ii) state machine
     hists = ([(h, 'corpus') for h in CORPUS] + [(gen_history(rng), 'history') for _ in range(ctx.n(400))]
              + [(gen_stale(rng), 'stale') for _ in range(ctx.n(60))] + [(gen_nick(rng), 'nick') for _ in range(ctx.n(60))])
@@ -845,6 +897,9 @@ def _same_failure(f, inp):
 def replay(ctx, inp):
     mods = _mods()
     ircdb, conf, ircutils = mods
+    if 'sequence' in inp:
+        bad = memo_failure(ircutils, inp)
+        return bad[1] if bad is not None else None
     if 'pattern' in inp:
         ir = bool(ircutils._hostmaskPatternEqual(inp['pattern'], inp['hostmask']))
         return None if ir == ref_match(inp['pattern'], inp['hostmask']) else 'matcher disagrees with IRC glob rules'
